@@ -400,7 +400,7 @@ def aep_touched_refs(c):
     return lambda r: z3.Exists([q], r == qref(h0, seq, basis, q))
 
 
-contract(SQ, "Sequence.add_eom_pulse", props=("C15",),
+contract(SQ, "Sequence.add_eom_pulse", props=("C15", "C13"),
          params={"self": ("ref", "Sequence"), "channel": "str", "duration": "int", "phase": "real", "post_phase_shift": "real", "protocol": "str", "correct_phase_drift": "bool"},
          requires=aep_requires,
          ensures=aep_ensures,
